@@ -25,7 +25,8 @@ LEVEL_NOTE = ('PARTIAL, bounded replay only (tests, not proofs): PyMatching\'s o
               'tested against the full coset of solutions on lattices with n <= 13 under biased and XZZX-deformed '
               'weights); matching and union-find correct all Pauli errors of weight <= floor((d-1)/2) on '
               'Toric2D/Planar2D/RotatedPlanar2D up to 5x5 (exhaustive up to 4x4, sampled 5x5 in the quick tier; '
-              'union-find has no model of uf_support.py: decided by replay only); sweep-match corrects every '
+              'union-find: uf_support.py is modelled and proved to reproduce the syndrome (C05), its t-correction claim is '
+              'decided by replay only); sweep-match corrects every '
               'single-qubit Pauli error on Toric3DCode (all L_i >= 3: 3x3x3, 3x4x3 quick; 3x4x5, 4x4x4 thorough) and '
               'RotatedPlanar3DCode (3x3x3, 4x4x3 quick; 5x5x3 thorough) - DESIGN section 5 C09 scope notes: d >= 3 only, '
               'Planar3DCode is not a home lattice. Distances are premises (C17); "trivial operator => is_success" is C04.')
